@@ -45,13 +45,14 @@ def ignore_texts(comps_rel, own=None):
     return outs
 
 
-def c15(ctx):
+def c15(ctx, device_only=False):
+    """device_only (run for C16): only chains searched in one-file-system mode that hold a device boundary or a Manifest linked to another file system"""
     quick = ctx.tier == 'quick'
-    r = ctx.rng('c15')
+    r = ctx.rng('c15' if not device_only else 'c16-discovery')
     cases = []
     # levels l1..l4 (outermost first); start depth s in 1..4; relative path at level j (1-based) = l(j+1)..l(s)
     states = ['absent', 'plain', 'gz', 'both']
-    n_target = 2500 if quick else 40000
+    n_target = (2500 if quick else 40000) if not device_only else (500 if quick else 5000)
     seen = set()
 
     def mk(boundary, start, xdev, compr, lv_states, ign_level, ign_idx, odd, link=None):
@@ -91,12 +92,18 @@ def c15(ctx):
         if r.random() < 0.2:
             # a Manifest that is a symbolic link to a file on another (or the same) filesystem
             link = (r.randint(1, DEPTH), r.choice(['Manifest', 'Manifest', 'Manifest.gz']), r.choice(['foreign', 'foreign', 'same']))
+        if device_only:
+            xdev = False
+            if boundary == 0 and (link is None or link[2] != 'foreign'):
+                link = (r.randint(1, start), r.choice(['Manifest', 'Manifest', 'Manifest.gz']), 'foreign')
+                lv_states = tuple(('plain' if link[1] == 'Manifest' else 'gz') if j + 1 == link[0] and st == 'absent' else st for j, st in enumerate(lv_states))
+                compr = compr or link[1] != 'Manifest'
         key = (boundary, start, xdev, compr, lv_states, ign_level, ign_idx, odd, link)
         if key in seen:
             continue
         seen.add(key)
         cases.append(mk(*key))
-    if not quick:
+    if not quick and not device_only:
         # exhaustive core: all level states x start x flags, one ignore placement each, no boundary / boundary at 2
         for lv_states in itertools.product(states[:3], repeat=DEPTH):
             for start in range(1, DEPTH + 1):
@@ -180,8 +187,9 @@ def c15(ctx):
                            'via theorem C15_outermost)' % (iv[1], mi[1])) if clean else
                           'find_top_level_manifest differs between model and implementation',
                           {'where': 'find_top_level', 'case': c, 'impl': iv, 'model': mi, 'devs': res['devs']})
-    cli_discovery_per_path(ctx)
-    ctx.count('top:chains', len(cases), len({json.dumps(c, sort_keys=True) for c in cases}),
+    if not device_only:
+        cli_discovery_per_path(ctx)
+    ctx.count('top:chains' if not device_only else 'top:chains-one-file-system', len(cases), len({json.dumps(c, sort_keys=True) for c in cases}),
               samples=[{'case': cases[0], 'result': out['results'][0]['res']}],
               dist=dict(kinds, realisation=out['realisation'], depth=DEPTH,
                         with_boundary=sum(1 for c in cases if c['boundary']),
